@@ -218,6 +218,23 @@ def _run_cell_once(cfg, seeds, prehist, skind, n_obs, delivery='copy'):
         st_obj = storage if storage is not None else getattr(ex, '_storage', None)   # library default: private, optional
         img = (sorted((str(k), hx(v)) for k, v in vals.items()), storage_image(st_obj) if st_obj is not None else None)
         digests.append(hashlib.sha1(repr(img).encode()).hexdigest()[:16])
+    if cfg['storage'] == 'tree':
+        # the public tree walk with observations that LACK the split features (the walk then picks a child at random,
+        # weighted by the children's weights): part of what the global seeds must determine
+        from ixai.storage.tree_storage import walk_through_tree
+        walks = []
+        for f in names:
+            root = getattr(storage(f)[0], '_root', None)
+            if root is None:
+                continue
+            for sparse in ({}, {'n1': 0.0}, {'c1': 'a'}, {}):
+                try:
+                    nodes = list(walk_through_tree(root, dict(sparse), until_leaf=True))
+                    walks.append([type(n).__name__ + '|' + str(getattr(n, 'repr_split', '')) + '|' +
+                                  hx(getattr(n, 'total_weight', 0.0)) for n in nodes])
+                except Exception as exc:
+                    walks.append(type(exc).__name__)
+        digests.append(hashlib.sha1(repr(walks).encode()).hexdigest()[:16])
     return digests
 
 
